@@ -6,8 +6,8 @@ import Spok.Judge.Hash
 case lines (written by `vh-hash gen`, see harness/cmd/vh-hash/main.go):
 * `sha <hex>` — self-test of the executable SHA-256 against `crypto/sha256`; impl observation `SHA <hex digest>`;
 * `grp g=<GOMAXPROCS> c=<cpus|0> r=<repetitions> y=<seed> x=<0|1 race build> <variant>…` where a variant is
-  `<label>:<n>` followed by `n` entries `<kind>:<relative path hex>:<content hex>`; kinds `f d m l n v`
-  (regular file, directory, missing, dangling symlink, parent is a regular file, vanishes while hashed);
+  `<label>:<n>` followed by `n` entries `<kind>:<relative path hex>:<content hex>`; kinds `f d m l n v r`
+  (regular file, directory, missing, dangling symlink, parent is a regular file, vanishes while hashed, read fails);
   labels `base perm dirs content rename add remove diff other`, the first variant is the base.
   impl observation: `ROOT <hex of the temp dir> ; OUT <token per variant> ; LEAK <n per variant> ; RACE 0|1 ; CALLS n`,
   a token being the comma-separated sorted set of distinct outcomes `D:<hex digest>` / `E` (error) / `P` (panic)
@@ -42,7 +42,7 @@ structure Variant where
 
 def kindOf : String → Option Kind
   | "f" => some .file | "d" => some .dir | "m" => some .missing
-  | "l" => some .dangling | "n" => some .notdir | "v" => some .vanish
+  | "l" => some .dangling | "n" => some .notdir | "v" => some .vanish | "r" => some .readfail
   | _ => none
 
 def parseEntry (tok : String) : Option EntryW :=
